@@ -2005,6 +2005,9 @@ BEBO_OR_RE = re.compile(r'^([ \t]*[oO][rR][ \t]+)')
 BOOLEAN_OPS_RES.append( (BEBO_OR_RE, BodyElementBooleanOps_Or) )
 
 # ALL_BODY_ELEMENT_RES - All regular expressions used in parsing out a body into individual operations
+# Two-character comparison operators ( <= , >= ) must be tried before their one-character prefixes ( < , > )
+COMPARISON_RES.sort(key = lambda reAndClass : -1 * len(reAndClass[1].COMPARISON_OPERATOR_STR))
+
 ALL_BODY_ELEMENT_RES = VALUE_GENERATOR_RES + STATIC_VALUES_RES + COMPARISON_RES + OPERATION_RES + BOOLEAN_OPS_RES
 
 # NOTE: Static values should come before operations, so negative values match as a static value and not a substract operation
